@@ -1680,3 +1680,178 @@ Theorem compound_keeps_bindings x n P e s st sig e' st' :
 Proof.
   intros H A. destruct (shadow_inv_all x n) as (Hs & _). apply Hs in H. exact (H A).
 Qed.
+
+(* ====================================================================== *)
+(* 8. for statements as a whole; the numeric sequence of the task statement *)
+(* ====================================================================== *)
+
+Theorem for_stmt_trace n P e var vt r body st sig e' st' :
+  exec_stmt n P e (SFor var vt r body) st = (Ok (sig, e'), st') ->
+  exists f st0 rg e2 st1 tr en e3,
+    for_init f P ([] :: e) var vt r st0 = (Ok (rg, e2), st1) /\     (* range evaluated once, here *)
+    tl e2 = e /\ var_in_top (loopvar_name var) e2 /\
+    for_trace P (loopvar_name var) body rg e2 st1 tr en e3 st' /\
+    sig = for_end_signal en /\ e' = tl e3.
+Proof.
+  destruct n as [|f]; [discriminate|]. rewrite exec_stmt_for. intro H.
+  apply bindM_inv in H as (u & st0 & _ & H). apply bindM_inv in H as ([rg e2] & st1 & HI & H).
+  apply bindM_inv in H as ([sg e3] & st2 & HF & H). inversion H; subst.
+  apply exec_for_trace in HF as (tr & en & HT & ->).
+  pose proof (for_init_top f P [] e var vt r _ _ _ HI) as [T V]. simpl in T, V.
+  exists f, st0, rg, e2, st1, tr, en, e3. repeat split; assumption.
+Qed.
+
+Lemma range_num_inv f P e1 o d st a st1 :
+  range_num f P e1 o d st = (Ok a, st1) ->
+  exists l, eval_expr f P e1 (match o with Some y => y | None => ENum d end) st = (Ok l, st1) /\
+            hget (st_heap st1) l = Some (HNum a).
+Proof.
+  unfold range_num. intro H. apply bindM_inv in H as (l & s1 & HE & H).
+  apply bindM_inv in H as (v & s2 & L & H). apply load_inv in L as [-> L].
+  destruct v; try discriminate. inversion H; subst. exists l. split; assumption.
+Qed.
+
+(* numeric range: the ranger is built from the three numbers obtained by
+   evaluating start / stop / step (defaults 0 and 1) once, in this order *)
+Theorem for_init_step_inv f P e1 var vt start stop step st rg e2 st' :
+  for_init f P e1 var vt (RStep start stop step) st = (Ok (rg, e2), st') ->
+  exists a st1 b st2 c st3,
+    range_num f P e1 start 0%float st = (Ok a, st1) /\
+    range_num f P e1 (Some stop) 0%float st1 = (Ok b, st2) /\
+    range_num f P e1 step 1%float st2 = (Ok c, st3) /\
+    PrimFloat.eqb c 0 = false /\ rg = RgStep a b c.
+Proof.
+  rewrite for_init_step_unfold. intro H.
+  apply bindM_inv in H as (a & st1 & A & H). apply bindM_inv in H as (b & st2 & B & H).
+  apply bindM_inv in H as (c & st3 & C & H). destruct (PrimFloat.eqb c 0) eqn:Z; [discriminate|].
+  apply bindM_inv in H as (e2' & st4 & _ & H). inversion H; subst.
+  exists a, st1, b, st2, c, st3. repeat split; assumption.
+Qed.
+
+(* array / string / map range: the ranger holds the array CELL (re-read at each
+   step), the STRING VALUE at loop entry, the map cell and the KEY ORDER at loop entry *)
+Theorem for_init_expr_inv f P e1 var vt y st rg e2 st' :
+  for_init f P e1 var vt (RExpr y) st = (Ok (rg, e2), st') ->
+  exists l st1, eval_expr f P e1 y st = (Ok l, st1) /\
+    match hget (st_heap st1) l with
+    | Some (HArr _) => rg = RgArr l 0
+    | Some (HStr s) => rg = RgStr s 0
+    | Some (HMap om) => rg = RgMap l (order om)
+    | _ => False
+    end.
+Proof.
+  simpl. intro H. apply bindM_inv in H as (l & st1 & E & H).
+  apply bindM_inv in H as (v & s2 & L & H). apply load_inv in L as [-> L].
+  exists l, st1. split; [exact E|]. rewrite L.
+  destruct v; try discriminate; apply bindM_inv in H as (e2' & st4 & _ & H); inversion H; reflexivity.
+Qed.
+
+(* --- the task's [steps] agrees with Go's stop test when no NaN is involved --- *)
+Import SpecFloat.
+
+Lemma SFcompare_antisym x y : SFcompare y x = option_map CompOpp (SFcompare x y).
+Proof.
+  destruct x as [sx|sx| |sx mx ex], y as [sy|sy| |sy my ey]; simpl; try reflexivity;
+    try (destruct sx; reflexivity); try (destruct sy; reflexivity); try (destruct sx, sy; reflexivity).
+  change (Pos.compare_cont Eq my mx) with (Pos.compare my mx).
+  change (Pos.compare_cont Eq mx my) with (Pos.compare mx my).
+  rewrite (Z.compare_antisym ex ey), (Pos.compare_antisym mx my).
+  destruct sx, sy; try reflexivity; destruct (ex ?= ey)%Z; simpl; try reflexivity.
+Qed.
+
+Lemma not_nan_compare x y : is_nan x = false -> is_nan y = false ->
+  exists c, SFcompare (Prim2SF x) (Prim2SF y) = Some c.
+Proof.
+  unfold is_nan. rewrite !FloatAxioms.eqb_spec. unfold SFeqb. intros Hx Hy.
+  destruct (Prim2SF x) as [sx|sx| |sx mx ex], (Prim2SF y) as [sy|sy| |sy my ey]; simpl in *;
+    try discriminate; eexists; reflexivity.
+Qed.
+
+Lemma leb_negb_ltb x y : is_nan x = false -> is_nan y = false ->
+  PrimFloat.leb y x = negb (PrimFloat.ltb x y).
+Proof.
+  intros Hx Hy. rewrite FloatAxioms.leb_spec, FloatAxioms.ltb_spec. unfold SFleb, SFltb.
+  rewrite SFcompare_antisym. destruct (not_nan_compare x y Hx Hy) as [c ->]. destruct c; reflexivity.
+Qed.
+
+Lemma ltb_asym x y : PrimFloat.ltb x y = true -> PrimFloat.ltb y x = false.
+Proof.
+  rewrite !FloatAxioms.ltb_spec. unfold SFltb. rewrite (SFcompare_antisym (Prim2SF x) (Prim2SF y)).
+  destruct (SFcompare (Prim2SF x) (Prim2SF y)) as [[]|]; simpl; congruence.
+Qed.
+
+Lemma nonzero_sign s : is_nan s = false -> PrimFloat.eqb s 0 = false ->
+  PrimFloat.ltb 0 s = true \/ PrimFloat.ltb s 0 = true.
+Proof.
+  intros Hs Hz. assert (H0 : is_nan 0 = false) by reflexivity.
+  destruct (not_nan_compare s 0%float Hs H0) as [c Hc].
+  rewrite FloatAxioms.eqb_spec in Hz. rewrite !FloatAxioms.ltb_spec. unfold SFeqb, SFltb in *.
+  rewrite (SFcompare_antisym (Prim2SF s) (Prim2SF 0)), Hc in *. destruct c; simpl in *; auto; discriminate.
+Qed.
+
+Lemma step_live_done cur stop step :
+  is_nan cur = false -> is_nan stop = false -> is_nan step = false -> PrimFloat.eqb step 0 = false ->
+  step_live cur stop step = negb (step_done cur stop step).
+Proof.
+  intros Hc Hs Ht Hz. unfold step_live, step_done.
+  rewrite (leb_negb_ltb cur stop Hc Hs), (leb_negb_ltb stop cur Hs Hc).
+  destruct (nonzero_sign step Ht Hz) as [Q|Q]; rewrite Q, (ltb_asym _ _ Q); simpl;
+    rewrite ?orb_false_r, negb_involutive; reflexivity.
+Qed.
+
+Fixpoint iter_add (j : nat) (cur step : float) : float :=
+  match j with O => cur | S j' => iter_add j' (cur + step)%float step end.
+
+Lemma steps_agree k : forall cur stop step,
+  is_nan stop = false -> is_nan step = false -> PrimFloat.eqb step 0 = false ->
+  (forall j, j < k -> is_nan (iter_add j cur step) = false) ->
+  steps k cur stop step = go_steps k cur stop step.
+Proof.
+  induction k as [|k IH]; intros cur stop step Hs Ht Hz Hn; [reflexivity|].
+  simpl. rewrite step_live_done; try assumption; [|apply (Hn 0); lia].
+  destruct (step_done cur stop step); simpl; [reflexivity|]. f_equal.
+  apply IH; try assumption. intros j Hj. apply (Hn (S j)). lia.
+Qed.
+
+(* for_num_spec with the sequence as defined in the property text, valid
+   whenever no NaN is involved *)
+Theorem for_num_spec_steps P var body a b c e st tr en e' st' :
+  for_trace P var body (RgStep a b c) e st tr en e' st' ->
+  is_nan b = false -> is_nan c = false -> PrimFloat.eqb c 0 = false ->
+  (forall j, j <= List.length tr -> is_nan (iter_add j a c) = false) ->
+  map visit_val tr = map (fun x => Some (HNum x)) (steps (List.length tr) a b c) /\
+  (en = FeDone -> steps (S (List.length tr)) a b c = steps (List.length tr) a b c).
+Proof.
+  intros H Hb Hc Hz Hn. apply for_num_spec in H as [H1 H2].
+  rewrite !steps_agree; try assumption; [split; assumption | |]; intros j Hj; apply Hn; lia.
+Qed.
+
+(* ... and refuted when the start value is NaN: the sequence of the property
+   text is empty, the loop (in the model as in ranger.go, whose stop test is
+   "step > 0 && cur >= stop") never ends *)
+Definition f_nan : float := Eval vm_compute in (0 / 0)%float.
+
+Lemma nan_loop_never_ends : forall n P e st r st',
+  exec_for n P e underscore (RgStep f_nan 1 1) [] st <> (Ok r, st').
+Proof.
+  induction n as [|f IH]; intros P e st r st' H; [discriminate|].
+  rewrite exec_for_unfold in H. apply bindM_inv in H as (nx & st1 & H1 & H).
+  simpl in H1. change (step_done f_nan 1 1) with false in H1. cbv iota in H1.
+  apply bindM_inv in H1 as (l & s1 & _ & H1). inversion H1; subst. simpl in H.
+  change (f_nan + 1)%float with f_nan in H.
+  apply bindM_inv in H as (e1 & st2 & U & H). unfold update_var in U. simpl in U. inversion U; subst.
+  apply bindM_inv in H as ([sg e2] & st3 & B & H).
+  destruct f as [|f']; [discriminate|]. rewrite exec_block_unfold in B.
+  apply bindM_inv in B as (u & st4 & _ & B). destruct f' as [|f'']; [discriminate|].
+  rewrite exec_stmts_nil in B. inversion B; subst. exact (IH _ _ _ _ _ H).
+Qed.
+
+Theorem for_num_spec_nan_refuted :
+  exists a b c, PrimFloat.eqb c 0 = false /\ steps 5 a b c = [] /\
+    go_steps 5 a b c = [a; a; a; a; a] /\
+    forall n P e st r st', exec_for n P e underscore (RgStep a b c) [] st <> (Ok r, st').
+Proof.
+  exists f_nan, 1%float, 1%float.
+  split; [vm_compute; reflexivity|]. split; [vm_compute; reflexivity|]. split; [vm_compute; reflexivity|].
+  apply nan_loop_never_ends.
+Qed.
